@@ -156,6 +156,27 @@ func checkC14(r *Run) {
 	publishLocked(r, fns, "publish-locked")
 	// results match a sequential order only if a fid is looked up and unbound in one atomic step
 	c08TableAccess(r, p, tsOwn)
+	// … and a failed operation leaves the table as it found it: a reservation that stays behind (or a deletion of some
+	// other fid) makes later operations answer duplicate/unknown fid in a way no sequential order of the requests explains
+	{
+		ks := []string{}
+		for k := range tsOwn.viol {
+			ks = append(ks, k)
+		}
+		sort.Strings(ks)
+		nLeft := 0
+		for _, k := range ks {
+			v := tsOwn.viol[k]
+			if v.rule == "own/placeholder-left" || v.rule == "own/nil-left-bound" || v.rule == "table/delete-unheld" {
+				nLeft++
+				r.Bad("table/rollback", v.key, v.pos, v.reason)
+			}
+		}
+		if nLeft == 0 {
+			r.Ok("table/rollback", "session operations: every reservation is bound or removed, and only fids held by the operation are deleted, on every explored path", token.NoPos, fmt.Sprintf("%d table deletions interpreted", tsOwn.deleteSites))
+		}
+		r.Floor("table/rollback", tsOwn.deleteSites, 3, "table deletions interpreted")
+	}
 	// E7a obligations
 	akeys := []string{}
 	for k := range ts.acc {
